@@ -600,6 +600,154 @@ def replay_payload(case, il, ml, extra=None):
     return d
 
 
+def keep_drop_layer(ctx, model, cases):
+    """The dedupe-side entry points of the globs (`--keep-name`, `--keep-path`, `--name`, `--path`): dedupe.rs should_keep /
+    may_drop with the glob as the only pattern of its kind must answer what the compiled pattern answers on the file name /
+    on the path text - the extracted matcher (model, D mode) is asked the same questions."""
+    ks, ds, subjects = [], [], []
+    for c in cases:
+        ps = [p for p in c.paths if p and not p.endswith("/") and "//" not in p and all(x not in (".", "..", "") for x in p.strip("/").split("/"))
+              and p != "/"]
+        if not ps:
+            continue
+        ps = ps[:6] + [p + "\n" for p in ps[:1]] + ["x\\" + p for p in ps[:1]] + [p.replace("a", "\x1b", 1) for p in ps[:1]]
+        ks.append("K %d %s %s" % (c.ci, enc(c.glob), " ".join(enc(p) for p in ps)))
+        ds.append("D %d %s %s" % (c.ci, enc(c.glob), " ".join(enc(x) for p in ps for x in (p, p.split("/")[-1]))))
+        subjects.append((c, ps))
+    impl = _balanced(GLOB, ks)
+    mod = _balanced(model, ds)
+    bad = []
+    for (c, ps), il, ml in zip(subjects, impl, mod):
+        ctx.count(len(ps))
+        if il.split(" ")[0] != ml.split(" ")[0]:
+            if not ml.startswith("unsup"):
+                bad.append((len(c.glob), 0, c, "-", "outcome %s vs model %s" % (il.split(" ")[0], ml.split(" ")[0])))
+            continue
+        if not il.startswith("ok "):
+            continue
+        ib, mb = il.split(" ")[2:], ml.split(" ")[2:]
+        for j, p in enumerate(ps):
+            full, name = mb[2 * j][0], mb[2 * j + 1][0]
+            want = name + full + name + full
+            ctx.bump("keep_drop_option_verdicts", "match" if "1" in want else "no_match")
+            ctx.distinct(("K", c.ci, c.glob, p), "1" in want)
+            if ib[j] != want:
+                which = [n for n, a, b in zip(("--keep-name", "--keep-path", "--name", "--path"), ib[j], want) if a != b]
+                bad.append((len(c.glob), len(p), c, p, "%s answers %s, the compiled pattern %s" % ("/".join(which), ib[j], want)))
+    if bad:
+        _, _, c, p, why = min(bad, key=lambda t: t[:2])
+        ctx.violation_counts["keep_drop_glob_semantics"] = len(bad)
+        ctx.violation({"kind": "glob_semantics", "layer": "dedupe_options"},
+                      "glob %r%s as a dedupe keep/drop pattern on %r: %s (%d such pairs)" % (c.glob, " with -i" if c.ci else "", p, why, len(bad)),
+                      {"case_line": "K %d %s %s" % (c.ci, enc(c.glob), enc(p)), "glob": c.glob, "path": p, "ignore_case": bool(c.ci),
+                       "tokens": c.toks}, found_input=True)
+
+
+CLI_DIRS = ["a", "B", "ż", "ab"]
+CLI_FILES = ["b", "a.1", "a-1", "(", "A", "a+", "c", "1", "a,b", "{a", "b}", "a|b"]
+
+
+def cli_layer(ctx, n):
+    """The glue between the command line and the pattern compiler: `fclones group . --name G | --path G | --exclude G [-i]` run from
+    the root of a fixed tree (directories over {a B ż ab} up to depth 2, files named {b a.1 a-1 ( A a+ c 1 a,b {a b} a|b} in each,
+    unique contents, --rf-over 0 so that every selected file is listed).  The listed set must be exactly the files the documented
+    glob semantics selects (independent reference matcher): --name on the file name, relative --path / --exclude on the path
+    relative to the working directory (an excluded directory is not entered)."""
+    import shutil
+    from concurrent.futures import ThreadPoolExecutor
+    from .. import treegen
+    fclones = core.build_fclones()
+    top = os.path.realpath(os.path.join(ctx.scratch, "cli_tree"))
+    shutil.rmtree(top, ignore_errors=True)
+    dirs = [""] + CLI_DIRS + [a + "/" + b for a in CLI_DIRS for b in CLI_DIRS]
+    files = []
+    k = 0
+    for d in dirs:
+        os.makedirs(os.path.join(top, d), exist_ok=True)
+        for f in CLI_FILES:
+            rel = (d + "/" if d else "") + f
+            with open(os.path.join(top, rel), "w") as fh:
+                fh.write("unique content %d\n" % k)
+            k += 1
+            files.append(rel)
+    rng = ctx.rng.fork()
+    jobs = []
+    pool = TOKENS + XTOKENS
+    for i in range(n):
+        mode = ["name", "path", "exclude"][i % 3]
+        while True:
+            nt = 1 + rng.below(4)
+            toks = [rng.choice(XTOKENS + ["{a,b/c}", "@(a|b)", "*(a|b)"]) if rng.chance(1, 3) else rng.choice(pool) for _ in range(nt)]
+            if mode != "name" and rng.chance(1, 2):
+                toks = [rng.choice(["**", "*", "a", "ab", "B"]), "/"] + toks
+            glob = "".join(toks)
+            if glob.startswith("-") or glob.startswith("/") or glob.startswith("\\/") or "\n" in glob:
+                continue
+            ast = ref_ast(toks)
+            if ast is not None and mode == "exclude" and ref_match(ast, "", False):
+                continue            # matches the empty relative path = the working directory itself: everything is excluded (not judged)
+            if ast is not None:
+                break
+        ci = rng.chance(1, 4)
+        jobs.append((i, mode, toks, glob, ast, ci))
+
+    def one(job):
+        i, mode, toks, glob, ast, ci = job
+        argv = ["group", ".", "--rf-over", "0", "-f", "json", "--%s" % mode, glob] + (["-i"] if ci else [])
+        rc, out, err = treegen.fclones(argv, cwd=top, env={"FCLONES_VERIF_DISK_KIND": "ssd", "HOME": top + "_home"}, timeout=60)
+        return rc, out, err
+
+    with ThreadPoolExecutor(max_workers=core.NCPU) as ex:
+        outs = list(ex.map(one, jobs))
+    for (i, mode, toks, glob, ast, ci), (rc, out, err) in zip(jobs, outs):
+        ctx.count(len(files))
+        ctx.bump("cli_option", "--" + mode + (" -i" if ci else ""))
+        payload = {"layer": "cli", "cwd": "tree of directories over %r (depth <= 2) with files %r in each" % (CLI_DIRS, CLI_FILES),
+                   "argv": ["fclones", "group", ".", "--rf-over", "0", "--%s" % mode, glob] + (["-i"] if ci else []), "tokens": toks,
+                   "stderr": err.decode("utf-8", "replace")[-300:]}
+        if rc != 0:
+            ctx.violation({"kind": "glob_rejected", "layer": "cli"}, "fclones group --%s %r failed (rc %d) although the glob is made of documented "
+                          "constructs" % (mode, glob, rc), payload, found_input=True)
+            continue
+        try:
+            _, groups = treegen.parse_json_report(out.decode("utf-8"))
+        except Exception as e:   # noqa
+            ctx.violation({"kind": "glob_rejected", "layer": "cli"}, "unparsable report: %r" % (e,), payload, found_input=True)
+            continue
+        got = sorted(os.path.relpath(p.decode("utf-8", "surrogateescape"), top) for g in groups for p in g["files"])
+        isabs = glob_is_abs(toks)
+
+        def m(full):
+            """does the (absolutised) pattern match the absolute string `full`?"""
+            if isabs:
+                return ref_match(ast, full, ci)
+            return full.startswith(top + "/") and ref_match(ast, full[len(top) + 1:], ci)
+
+        def excluded(rel):
+            # selector.rs: matches_full_path on the file; matches_dir on every directory walked through (the input path included):
+            # the pattern matches a prefix of "<dir>/" that ends at a component boundary
+            full = top + "/" + rel
+            c = full.split("/")
+            cands = ["/"] + [x for j in range(2, len(c)) for x in ("/".join(c[:j]), "/".join(c[:j]) + "/")]
+            return m(full) or any(m(x) for x in cands)
+        if mode == "name":
+            want = sorted(f for f in files if ref_match(ast, f.split("/")[-1], ci))
+        elif mode == "path":
+            want = sorted(f for f in files if m(top + "/" + f))
+        else:
+            want = sorted(f for f in files if not excluded(f))
+        ctx.distinct(("cli", mode, glob, ci), 0 < len(want) < len(files))
+        ctx.bump("cli_selected_files", "none" if not want else "all" if len(want) == len(files) else "some")
+        if got != want:
+            miss = sorted(set(want) - set(got))[:4]
+            extra = sorted(set(got) - set(want))[:4]
+            payload.update(missing=miss, unexpected=extra)
+            ctx.violation({"kind": "glob_semantics", "layer": "cli"},
+                          "`fclones group . --%s %r%s` selects the wrong files (missing %r, unexpected %r): the glob given on the command "
+                          "line does not match as documented" % (mode, glob, " -i" if ci else "", miss, extra), payload, found_input=True)
+    shutil.rmtree(top, ignore_errors=True)
+
+
 def run(ctx):
     ctx.rule = ("bounded-exhaustive globs over 20 tokens {a B . - + ( ż 1 ? * ** / [ab] [!a] {a,b/c} @(a|b) ?(a) +(a) *(a|b) \\*}: "
                 "all globs of <= 2 tokens x all paths of <= 3 (quick) / <= 4 (thorough) components over names {a B b a.1 a-1 ż ( ab} "
@@ -779,6 +927,13 @@ def run(ctx):
 
     # --- 1c. selectors with several include paths / names / excludes ---------------------------------
     check_multi(ctx, model, all_paths(3))
+
+    # --- 1d'. the dedupe-side options (should_keep / may_drop) on a sample of the Pattern-level cases -------------
+    kd = [c for c in cases if c.mode == "D" and len(c.toks) >= 1]
+    keep_drop_layer(ctx, model, [kd[i] for i in range(0, len(kd), max(1, len(kd) // ctx.pick(3000, 40000)))])
+
+    # --- 1e. the command line in front of the compiler (clap value handling, base dir anchoring) ------
+    cli_layer(ctx, ctx.pick(240, 3000))
 
     # --- 2. get_fixed_prefix on arbitrary strings -------------------------------------------------
     fl = fixed_prefix_cases(ctx)
